@@ -119,8 +119,12 @@ func baseNeedsParens(base *N) bool {
 		return false
 	}
 	last := base.Toks[len(base.Toks)-1]
-	return !(last == "]" || last == ")" || isPathTok(last) && last[0] == '.')
+	return !(last == "]" || last == ")" || isPathTok(last) && last[0] == '.' || directPostfix[last])
 }
+
+// argument-less operators that accept a traversal written directly after them (`keys[0]`, `parent(2).name`)
+var directPostfix = map[string]bool{"parent(1)": true, "parent(2)": true, "parent": true, "flatten(1)": true, "flatten": true, "keys": true, "reverse": true,
+	"sort": true, "unique": true, "to_entries": true, "path": true, "$v": true, "$w": true, "$item": true, "$i": true}
 
 func wrap(t []string) []string {
 	return append(append([]string{"("}, t...), ")")
@@ -168,7 +172,7 @@ func pipeChainBinds(n *N) bool {
 
 var pathAtoms = [][]string{{".a"}, {".b"}, {".c"}, {".arr"}, {".m"}, {".m", ".x"}, {".m", ".y"}, {".arr", "[", "0", "]"}, {".arr", "[", "1", "]"}, {".s"}, {".t"}, {"."}, {".arr", "[", "]"}, {".[", "\"a\"", "]"}, {".missing"}, {".\"a\""}}
 var valueAtoms = [][]string{{"1"}, {"2"}, {"3"}, {"0"}, {"-1"}, {"\"x\""}, {"\"a\""}, {"true"}, {"false"}, {"null"}, {"2.5"}, {"0x10"}}
-var nullary = [][]string{{"length"}, {"keys"}, {"not"}, {"min"}, {"max"}, {"reverse"}, {"sort"}, {"to_entries"}, {"unique"}, {"flatten"}, {"to_json"}, {"kind"}, {"key"}, {"path"}, {"parent"}, {"to_string"}, {".."}, {"line"}, {"any"}, {"all"}, {"trim"}, {"upcase"}, {"to_number"}, {"from_entries"}, {"explode", "(", ".", ")"}}
+var nullary = [][]string{{"length"}, {"keys"}, {"not"}, {"min"}, {"max"}, {"reverse"}, {"sort"}, {"to_entries"}, {"unique"}, {"flatten"}, {"to_json"}, {"kind"}, {"key"}, {"path"}, {"parent"}, {"to_string"}, {".."}, {"line"}, {"any"}, {"all"}, {"trim"}, {"upcase"}, {"to_number"}, {"from_entries"}, {"explode", "(", ".", ")"}, {"parent(1)"}, {"parent(2)"}, {"flatten(1)"}, {"to_json(0)"}, {"to_yaml(2)"}}
 
 var call1 = []string{"select", "map", "map_values", "has", "sort_by", "group_by", "unique_by", "with_entries", "any_c", "all_c", "del", "contains", "pick", "collect", "filter", "omit", "join", "test", "split", "match", "explode", "sort_keys", "eval", "delpaths"}
 var call2 = []string{"with", "sub", "setpath"}
@@ -274,7 +278,7 @@ func postfixBase(t *rapid.T, depth int) *N {
 	case 2:
 		return &N{K: "call", Op: rapid.SampledFrom([]string{"select", "map", "sort_by", "with_entries", "pick", "group_by", "has", "del"}).Draw(t, "pbc"), Kids: []*N{expr(t, depth-1)}}
 	case 3:
-		return &N{K: "atom", Toks: rapid.SampledFrom([][]string{{".m"}, {".arr"}, {".a"}, {".[", "\"m\"", "]"}}).Draw(t, "pbp")}
+		return &N{K: "atom", Toks: rapid.SampledFrom([][]string{{".m"}, {".arr"}, {".a"}, {".[", "\"m\"", "]"}, {"parent(1)"}, {"parent(2)"}, {"parent"}, {"flatten(1)"}, {"flatten"}, {"keys"}, {"reverse"}, {"sort"}, {"unique"}, {"to_entries"}, {"path"}}).Draw(t, "pbp")}
 	case 4:
 		return &N{K: "object", Kids: []*N{{K: "bin", Op: ":", Kids: []*N{{K: "atom", Toks: []string{"\"a\""}}, expr(t, depth-1)}}}}
 	default:
